@@ -73,6 +73,15 @@ func collidingNamesUnit(only string) Unit {
 		Panic:  "inconclusive"}
 }
 
+// parsedUnit: schemas given as JSON text, through the repository's own parser (shared by the
+// rule-family properties and C13; each owns its check ids).
+func parsedUnit(only string) Unit {
+	return Unit{Name: "schema-text/parser-to-emitted-code", Harness: "pkg/generator:HarnessParsed", Layer: "L3", Only: only,
+		Desc:   "four schema documents given as JSON TEXT in the spellings the parser has to normalise (mixed enums whose members print alike -- 1 and \"1\", true and \"true\", null and \"<nil>\" --, legacy id/definitions, type as string, one-element list and two-element list in both orders, 1.5e2 and 1.0 number spellings, a duplicated required name, draft-4 boolean exclusives, multipleOf, nested arrays/objects, typed enums with a default, a null-typed property, a typed map): the text goes through the REAL Schema/Type/TypeList.UnmarshalJSON (encoding/json on concrete bytes, custom unmarshalers interpreted) into the generator; the emitted code runs on a symbolic document and its verdict is compared, facet by facet, with a reference model built by an INDEPENDENT walk over the generically decoded text",
+		Bounds: "four concrete schema texts; documents with arrays <= 1 element, one extra member per map; regions of recorded findings (array items, nested limits, byte lengths, null for nullable objects) assumed away",
+		Quick:  map[string]int{"GRID": 2, "GRIDMAG": 36, "N": 1}, Panic: "inconclusive"}
+}
+
 // l3UnitT: an L3 unit whose thorough tier uses other parameters than the quick tier.
 func l3UnitT(name string, quick, thor map[string]int, only string, what string) Unit {
 	u := l3Unit(name, quick, only, what)
@@ -392,4 +401,11 @@ func init() {
 		},
 		Assumptions: []string{"float64->int64 conversion follows amd64 (CVTTSD2SI) semantics"},
 	})
+}
+
+func init() {
+	for _, id := range []string{"C01", "C02", "C03", "C04", "C05", "C08", "C13"} {
+		p := properties[id]
+		p.Units = append(p.Units, parsedUnit(id+"."))
+	}
 }
